@@ -170,6 +170,24 @@ func init() {
 					})
 				}})
 			}
+			// short-deck tables (the hand's player list is built on another path): seats taken in an order that
+			// differs from the seat order
+			for _, seats := range []int{3, 5} {
+				tc := defaultCfg(seats)
+				tc.Rule = pt.CompetitionRule_ShortDeck
+				tc.Blind = pt.TableBlindState{Level: 1, Ante: 1, Dealer: 2, SB: 0, BB: 0}
+				tc.Deck = "plain"
+				init := []seatSpec{{id: "a", seat: 0, chips: 9, joined: true}, {id: "b", seat: 2, chips: 12, joined: true}, {id: "c", seat: 1, chips: 15, joined: true}}
+				hc := &histCfg{name: fmt.Sprintf("seats%d/short-deck/slots-a0-b2-c1", seats), tcfg: tc, init: init, hands: hands,
+					lines: []string{"foldout"}, decks: []string{"plain"}, newStack: 5, between: []string{"none", "arrive", "leave-live"}}
+				ss = append(ss, &Suite{Name: "c02/" + hc.name, Bound: bound, Weight: seats, Run: func(prefix []int) *vrt.Exec {
+					return runHist(prefix, hc, vrt.Config{}, func(h *hist) []Monitor {
+						mc := newMonHandChips("C02")
+						mc.topup = func(hand int, id string) int64 { return h.topups[hand][id] }
+						return []Monitor{mc}
+					})
+				}})
+			}
 			return ss
 		},
 	})
